@@ -1,8 +1,8 @@
 (* C17 - Kolmogorov-Smirnov confidence bands are valid bands around the empirical cdf.
    The critical-value table and constants are translated from pbox_free.py (d_alpha) on every run; the translator also
    checks that an alpha outside the table is rejected. *)
-From Coq Require Import Reals Lra List.
-From PUN Require Import Base.Num Model.Pbox Model.KS Gen.GenKS Proofs.ListR Proofs.Stacking Proofs.KS.
+From Coq Require Import Reals Lra Lia List ZArith.
+From PUN Require Import Base.Num Model.Pbox Model.KS Gen.GenKS Gen.GenParams Proofs.ListR Proofs.Stacking Proofs.KS Proofs.KSPbox.
 Import ListNotations.
 Open Scope R_scope.
 
@@ -35,7 +35,22 @@ Theorem C17_interval_band_contains (lo sel hi w : list R) (t D : R) :
   clip RN (Mass (combine sel w) t + D) <= clip RN (Mass (combine lo w) t + D).
 Proof. exact (interval_band_contains lo sel hi w t D). Qed.
 
+(* the p-box made from the band (Staircase.from_CDFbundle: both cdf bounds extended to probabilities 0 and 1 and inverted on the configured
+   probability grid with interp1d 'next') contains the empirical distribution: at every grid level the left bound lies below and the right
+   bound above the empirical quantile (q, p = abscissae and cumulated probabilities of the ecdf; any D >= 0) *)
+Theorem C17_pbox_contains_ecdf (q p : list R) (D : R) L R' :
+  Rsorted q -> length p = length q -> (1 <= length q)%nat -> Rsorted p -> (forall x, In x p -> 0 <= x <= 1) -> 0 <= D ->
+  let plo := GenParams.p_lboundary RN in let phi := GenParams.p_hboundary RN in
+  from_cdfbundle RN GenParams.steps plo phi (q, map (fun x => clip RN (x + D)) p) (q, map (fun x => clip RN (x - D)) p) = Ok (L, R') ->
+  forall k, (k < GenParams.steps)%nat ->
+    nth k L 0 <= interp_next RN p q (nth k (p_values RN GenParams.steps plo phi) 0) <= nth k R' 0.
+Proof.
+  intros Sq Lp Lq Sp Pu HD plo phi. apply (band_pbox_contains GenParams.steps plo phi); auto.
+  intros k Hk. unfold p_values. apply linspace_in; auto; unfold plo, phi, p_lboundary, p_hboundary, nofdec, GenParams.steps in *; cbn [ndiv nofZ RN T]; try lia;
+    replace (10 ^ Z.of_nat 3)%Z with 1000%Z by reflexivity; lra.
+Qed.
 Print Assumptions C17_band.
+Print Assumptions C17_pbox_contains_ecdf.
 Print Assumptions C17_D_positive.
 Print Assumptions C17_D_decreasing_in_n.
 Print Assumptions C17_D_decreasing_in_alpha.
